@@ -241,11 +241,10 @@ check:
 				break check
 			}
 		}
-		// We need to check our sub-modules as well
-		for _, in := range root.Include {
-			if td = d.find(in.Module, name); td != nil {
-				break check
-			}
+		// We need to check our sub-modules as well, including the ones
+		// that are included by our sub-modules.
+		if td = d.findIncluded(root, name, map[*Module]bool{}); td != nil {
+			break check
 		}
 		// A submodule also has access to the typedefs of the module it
 		// belongs to and of all the submodules of that module.
